@@ -116,7 +116,39 @@ func Check_RegistrySweep() {
 	sx.Reach("swept")
 }
 
+// Check_LargeMessage: messages around the 65535-byte limit: whatever is put on
+// the wire has a header length equal to the bytes sent and is the reference
+// encoding; a set that does not fit is not put on the wire at all.
+func Check_LargeMessage() {
+	domain := sx.U32("domain")
+	conn := &common.FakeConn{}
+	ep := exporter.VerifNewExportingProcess(conn, domain)
+	const tplID = 300
+	ks := []common.Kind{common.KOctetVar}
+	_, err := ep.SendSet(common.TemplateSet(tplID, ks))
+	sx.Assert(err == nil, "template-send-ok")
+	total := sx.Range("messageSize", 65510, 65545)
+	recs := [][]common.Val{{common.Draw(common.KOctetVar, "value", total-23)}}
+	n, err := ep.SendSet(common.DataSet(tplID, recs))
+	if len(conn.Writes) == 1 {
+		sx.Assert(err != nil, "nothing-written-but-no-error")
+		sx.Assert(total > 65535, "fitting-message-not-sent")
+		sx.Reach("not-sent")
+		return
+	}
+	sx.Assert(len(conn.Writes) == 2, "one-write")
+	w := conn.Writes[1]
+	sx.Assert(len(w) <= 65535, "message-longer-than-65535-on-the-wire")
+	sx.Assert(int(ref.GetU16(w, 2)) == len(w), "header-length-is-bytes-sent")
+	sx.Assert(int(ref.GetU16(w, 18)) == len(w)-16, "set-length-covers-the-rest")
+	sx.Assert(n == len(w), "data-bytes-reported")
+	want := common.RefMessage(ref.GetU32(w, 4), 1, domain, common.RefDataSet(tplID, recs))
+	sx.Assert(sx.EqBytes(w, want), "data-message-equals-reference")
+	sx.Reach("sent")
+}
+
 var Table = map[string]runner.Entry{
+	"Check_LargeMessage":  {Setup: Setup, Fn: Check_LargeMessage},
 	"Check_WellFormed":    {Setup: Setup, Fn: Check_WellFormed},
 	"Check_RegistrySweep": {Setup: Setup, Fn: Check_RegistrySweep},
 }
